@@ -131,5 +131,51 @@ theorem Rep.remove_root_one {a : Arena} {g : Shape} (r : Rep a g) (i c : Nat) (h
   rw [← hid2]
   exact hf
 
+/-! ### Reading the hypotheses off the pointers -/
+
+theorem singleton_of_head_last {l : List Nat} {c : Nat} (hn : l.Nodup) (hh : l.head? = some c)
+    (hl : l.getLast? = some c) : l = [c] := by
+  cases l with
+  | nil => cases hh
+  | cons y t =>
+    simp only [List.head?_cons, Option.some.injEq] at hh
+    subst hh
+    cases t with
+    | nil => rfl
+    | cons z t' =>
+      exfalso
+      rw [List.getLast?_cons_cons] at hl
+      exact (List.nodup_cons.mp hn).1 (List.mem_of_getLast? hl)
+
+/-- A live slot without parent pointer whose `first_child` and `last_child` are the same id: a
+    parentless node with exactly one child. -/
+theorem Rep.root_one_of_ptrs {a : Arena} {g : Shape} (r : Rep a g) {i : Nat} {s : Slot} {x : NodeId}
+    (hs : a.slot i = some s) (h0 : 0 ≤ s.stamp) (hp : s.parent = none) (hf : s.first = some x)
+    (hl : s.last = some x) : g.par i = none ∧ g.kids i = [x.index0] := by
+  have P := r.ptrs i s hs h0
+  constructor
+  · have := P.parent
+    rw [hp] at this
+    cases h : g.par i with
+    | none => rfl
+    | some p => rw [h] at this; cases this
+  · have h1 := P.first
+    have h2 := P.last
+    rw [hf] at h1
+    rw [hl] at h2
+    cases hh : (g.kids i).head? with
+    | none => rw [hh] at h1; cases h1
+    | some c1 =>
+      cases hg : (g.kids i).getLast? with
+      | none => rw [hg] at h2; cases h2
+      | some c2 =>
+        rw [hh] at h1
+        rw [hg] at h2
+        simp only [Option.map_some, Option.some.injEq] at h1 h2
+        have e1 : x.index0 = c1 := by rw [h1]; simp
+        have e2 : x.index0 = c2 := by rw [h2]; simp
+        subst e1
+        exact singleton_of_head_last (r.kidsNodup i) hh (by rw [hg, e2])
+
 end Arena
 end XotModel
